@@ -1,4 +1,5 @@
 """C18 - run records describe the run that produced the stored result."""
+import json
 from pathlib import Path
 
 from ..core import Prop, Suite
@@ -114,7 +115,16 @@ class Records(Histories):
                     {'op': 'fail', 'slugs': []}, {'op': 'value', 'chain': 0, 'pick': 0},
                     {'op': 'records', 'chain': 0, 'pick': 0}, {'op': 'build', 'base': base},
                     {'op': 'records', 'chain': 1, 'pick': 0}]
-        return [c, m, r, q]
+        # one pipeline mounted as `base` below the pipeline that continues it: dataset <- pseudolabels <- base::model <-
+        # base::dataset; the inner instances of the classes run while the outer ones are running
+        n = dict(classes=[dict(K(0, 'Dataset', param_inputs=[dict(ref={'name': 'pseudolabels'}, default=[0])]), name='dataset'),
+                          dict(K(1, 'Model', meta_inputs=[{'cls': 0}]), name='model'),
+                          dict(K(2, 'Pseudo', meta_inputs=[{'name': 'base::model'}]), name='pseudolabels')],
+                 files={'round1.json': {'tasks': ['@M.Dataset', '@M.Model']}},
+                 base={'name': 'round2', 'data': {'tasks': ['@M.*'], 'uses': 'round1.json as base'}}, context=None)
+        n['ops'] = [{'op': 'build', 'base': n['base']}, {'op': 'value', 'chain': 0, 'pick': 4}] + \
+                   [{'op': 'records', 'chain': 0, 'pick': k} for k in range(5)]
+        return [c, m, r, q, n]
 
     def oracle(self, case, obs):
         return records_oracle(case, obs) or history_oracle(case, obs, self.checks)
@@ -141,6 +151,8 @@ class Plain(Task):
         self.save_to_run_info({'r': n, 'i': 0})
         self.logger.info(f'tok {n} second')
         self.save_to_run_info(f'rec {n}')
+        for falsy in (0, '', [], None, False, 0.0, {}):
+            self.save_to_run_info(falsy)
         return {'n': n}
 
 class Gen(Task):
@@ -245,7 +257,8 @@ class RunBodies(Suite):
         if toks != mine:
             return (f'{case}: the log after the latest run (number {n}) holds the messages {toks}; that run logged {mine}')
         recs = obs['records']
-        if recs != [{'r': n, 'i': 0}, f'rec {n}']:
+        want_recs = [{'r': n, 'i': 0}, f'rec {n}'] + ([0, '', [], None, False, 0.0, {}] if case['shape'] == 'plain' else [])
+        if json.dumps(recs, sort_keys=True) != json.dumps(want_recs, sort_keys=True):
             return f'{case}: the records after the latest run (number {n}) are {recs}'
         for other, lg in (obs.get('others') or {}).items():
             for l in lg or []:
